@@ -536,7 +536,7 @@ class Share(object):
     #make share look like a dictionary for .data record fields
     def __contains__(self, key):
         """       """
-        return hasattr(self._data, key)
+        return key in self._data.__dict__ #fields only, not class attributes of Data
 
     def __delitem__(self, key):
         """       """
@@ -548,8 +548,8 @@ class Share(object):
     def __getitem__(self, key):
         """    """
         try:
-            return getattr(self._data, key)
-        except AttributeError:
+            return self._data.__dict__[key] #fields only, not class attributes of Data
+        except KeyError:
             raise KeyError("%s object has no key '%s'" % (self.__class__.__name__, key))
 
     def __setitem__(self, key, value):
@@ -979,6 +979,10 @@ class Data(object):
             else:
                 raise AttributeError("Invalid attribute name '%s'" % key)
         else: #pass on to superclass
+            if (key not in self.__dict__ and key != '__dict__' and
+                    not hasattr(getattr(type(self), key, None), '__set__')):
+                #class attribute that is not a data descriptor (method, __doc__ ...) is not a field
+                raise AttributeError("Invalid attribute name '%s'" % key)
             super(Data,self).__setattr__(key,value)
 
     def __delattr__(self, key):
